@@ -156,7 +156,9 @@ class ByteArray(SimpleModel):
 
     @classmethod
     def from_hex(cls, value):
-        return (unhexlify(_bytes_join(value)),)
+        if isinstance(value, (list, tuple)):
+            value = _bytes_join(value)
+        return (unhexlify(value),)
 
 
 def _default_binary_encoding(b):
